@@ -315,6 +315,24 @@ def h_sync(flavour: int, outcome: int, s: int):
             ok = fail("sync:exception-not-propagated-unchanged", r) and ok
     elif not (r[0] == "ok" and type(r[1]) is tuple and len(r[1]) == 3 and r[1][0] == 1 and r[1][1] == 2 and r[1][2] is val):
         ok = fail("sync:result-differs", r) and ok
+    # one wrapper, two calls whose results differ in kind: a plain value, then an awaitable (and the other way round)
+    state = {"n": 0}
+
+    def alternating(x):
+        state["n"] += 1
+        if (state["n"] % 2 == 1) == (fl % 2 == 0):
+            return ("plain", x)
+        return coro(x, 2)
+
+    if not outcome:
+        walt = A.sync(alternating)
+        for rnd_ in range(2):
+            state_before = state["n"]
+            ra = D.call(walt(1))
+            plain_turn = ((state_before + 1) % 2 == 1) == (fl % 2 == 0)
+            want_ok = ("plain", 1) if plain_turn else (1, 2, val)
+            if not (ra[0] == "ok" and type(ra[1]) is tuple and len(ra[1]) == len(want_ok) and all(a is b or a == b for a, b in zip(ra[1], want_ok))):
+                ok = fail("sync:wrapper-remembers-the-kind-of-an-earlier-result", (fl, rnd_, ra)) and ok
     r2 = None
     try:
         A.sync(5)
